@@ -154,12 +154,24 @@ CLAIMED["C06"] = ("other",
     "Trusted: clang 14 front end; LLVM sroa/early-cse; irx; the Python fact engine; the flag values 0x01 / 0x02 of lib/public/lha_file_header.h as the meaning of the bits (tied to the decoders by C05 R3).",
     "static analysis: call-site operand provenance (value sources with their path facts) and guarded-site rules on LLVM IR (custom checker)", "DESIGN.md §3 C06")
 
+CLAIMED["C16"] = ("other",
+    "Static analysis of lib/lha_input_stream.c on its fully inlined form (claimed IN PART: the window discipline, for every prefix length at once). The self-extractor scan examines "
+    "position i of the lead-in buffer only while i + K < leadin_len with K at least the largest byte offset read at a position (signature bytes, both marker strings), so no byte the "
+    "source did not deliver decides a match wherever the refill boundaries fall; when a round ends, the bytes dropped from the buffer, the bytes added to the file position and the "
+    "number of positions tested are the same value, and on a match exactly the bytes before the matching position are dropped; each refill writes capacity - leadin_len bytes at "
+    "leadin + leadin_len and adds the delivered count; buffered bytes are replayed first (min(request, leadin_len), offset 0), dropped, the source read continues right behind them and "
+    "the call succeeds iff the request was filled; the read-based skip subtracts what was delivered, never asks for more than remains and succeeds only at zero; the FILE* skip seeks by "
+    "the requested count from the current position and its fread fallback demands every byte it subtracts; '-' opens standard input and any other name a read-only fopen. The suite tries "
+    "seven prefix lengths and one pipe; an off-by-one in the window or the discard passes it and changes a linear form here. NOT decided: which byte patterns are signatures or markers, "
+    "the decoy counter, the 256 KiB limit as a number (C13 R4), and the equality of member sequences as such.",
+    "Trusted: clang 14 front end; LLVM sroa/inline/early-cse; irx; the Python fact engine and the small linear-form evaluator of props/c16.py; memcmp/fseek/fread semantics.",
+    "static analysis: loop-shape recovery, linear index forms of every buffer access, guarded-site and operand-provenance rules on fully inlined LLVM IR (custom checker)", "DESIGN.md §3 C16")
+
 NOT_APPLICABLE = {
     "C01": "decode exactness is an equality of runtime byte streams produced by table-driven Huffman state machines; no structural clause is a necessary condition the tests leave open (DESIGN §4)",
     "C02": "lock-step of the adaptive -lh1- tree with LZHUF is an equality over runtime symbol histories (tie-break order, rebuild threshold are value computations); not decidable by static analysis in reach (DESIGN §4)",
     "C03": "byte-exact decoding of -lzs-/-lz5- is runtime behaviour; the stored-method clause is decidable but already pinned by the suite (DESIGN §4)",
     "C04": "byte-exact decoding of -pm1-/-pm2- (move-to-front history, rebuild schedule, position-dependent ranges) is an equality of runtime values (DESIGN §4)",
-    "C16": "members(P + A) == members(A) depends on where the header falls relative to refills of the 24-byte sliding buffer: a runtime alignment property (DESIGN §4)",
     "C19": "byte-exact rendering of runtime values (ratios, widths, six-month boundary, 32-bit totals); the structural part is exactly what the recorded listings of the suite pin (DESIGN §4)",
 }
 PENDING = {} if True else {
